@@ -148,6 +148,25 @@ func ruleC15d(c *Ctx) []*report.Result {
 	r.Check(idx["new"] < idx["arm"] && idx["arm"] < idx["print"], "rfmt.HelperForErrorf / capture enabled before formatting", pos, "wrapErrs=true must be set on the fresh printer before doPrintf")
 	r.Check(idx["print"] < idx["read"] && idx["read"] < idx["free"], "rfmt.HelperForErrorf / slot read between formatting and free", pos, "wrappedErr must be read after doPrintf and before free() clears it")
 	r.Check(idx["print"] < idx["take"] && idx["take"] < idx["free"], "rfmt.HelperForErrorf / string taken before free", pos, "the buffer must be taken after doPrintf and before free()")
-	r.Check(ret != nil && len(ret.Results) == 2 && ret.Results[0] == take && ret.Results[1] == loadErr, "rfmt.HelperForErrorf / results", pos, "must return (taken string, captured error)")
+	// with a deferred call the results are spilled to locals and re-loaded
+	unspill := func(v ssa.Value) ssa.Value {
+		if u, ok := v.(*ssa.UnOp); ok {
+			if al, ok := u.X.(*ssa.Alloc); ok && !al.Heap && al.Referrers() != nil {
+				var only *ssa.Store
+				n := 0
+				for _, ref := range *al.Referrers() {
+					if st, ok := ref.(*ssa.Store); ok && st.Addr == ssa.Value(al) {
+						only = st
+						n++
+					}
+				}
+				if n == 1 {
+					return only.Val
+				}
+			}
+		}
+		return v
+	}
+	r.Check(ret != nil && len(ret.Results) == 2 && unspill(ret.Results[0]) == take && unspill(ret.Results[1]) == loadErr, "rfmt.HelperForErrorf / results", pos, "must return (taken string, captured error)")
 	return []*report.Result{r}
 }
